@@ -166,7 +166,7 @@ def gaussian_syn_likelihood_ghurye_olkin(ssx, ssy):
         _, logdet_sigma = np.linalg.slogdet(Sigma)
         _, logdet_psi = np.linalg.slogdet(psi)
         A = wcon(d, n-2) - wcon(d, n-1) - 0.5*d*math.log(1 - 1/n)
-        B = -0.5 * (n-d-2) * (math.log(n-1) + logdet_sigma)
+        B = -0.5 * (n-d-2) * (d*math.log(n-1) + logdet_sigma)
         C = 0.5 * (n-d-3) * logdet_psi
         loglik = -0.5*d*math.log(2*math.pi) + A + B + C
     except np.linalg.LinAlgError:
